@@ -46,25 +46,10 @@ def intervals(info, uinfo):
     return out
 
 
-def oracle(program, track):
-    shim.install('UTC')
+def allocation_failures(m, img, info, prefix='C04', exact=True):
+    """Clauses (a) overlap, (b) bounds/sizes, (c) shared-iff-linked, and the location map used by (d);
+    (f) exact size is evaluated by `exact_size_failures`.  Returns (failures, loc, uinfo, ivs, vol)."""
     failures = []
-    run = Run(program)
-    run.run_all()
-    run.stats = {'c01_domain': 0}
-    if run.dead or run.problems:
-        run.stats['c01_domain'] += 1
-        run.close()
-        return run, failures
-    rec = RecordingFile()
-    img = run.write(rec)
-    if img is None:
-        run.stats['c01_domain'] += 1
-        run.close()
-        return run, failures
-    m = run.model
-    info = iso9660.read_iso(img)
-    run.info = info
     uinfo = None
     vol = info.get('volume_size') or 0
     hybrid = m.hybrid is not None
@@ -76,22 +61,30 @@ def oracle(program, track):
     # ---- (b) bounds and sizes
     for c, msg in info['findings']:
         if c in ('vd-sizes-agree', 'dir-bounds', 'pt-bounds', 'su-ce-bounds', 'su-ce-overlap', 'unreadable'):
-            failures.append(('C04/%s' % c, c, msg[:400]))
+            failures.append(((prefix + '/%s') % c, c, msg[:400]))
     if vol:
         if not hybrid and len(img) != vol * 2048:
-            failures.append(('C04/image-length/%s' % ('longer' if len(img) > vol * 2048 else 'shorter'), 'image-length',
+            failures.append(((prefix + '/image-length/%s') % ('longer' if len(img) > vol * 2048 else 'shorter'), 'image-length',
                              'image has %d bytes, the volume descriptors declare %d sectors (%d bytes)' % (len(img), vol, vol * 2048)))
         if hybrid:
             gs, gh = m.hybrid.get('geometry_sectors', 32), m.hybrid.get('geometry_heads', 64)
             cyl = gs * gh * 512
             pad_ok = len(img) >= vol * 2048 and len(img) % cyl == 0 and len(img) - vol * 2048 < cyl
             if not pad_ok and not (m.hybrid.get('efi') or m.hybrid.get('mac')):
-                failures.append(('C04/image-length/hybrid-padding', 'image-length',
+                failures.append((prefix + '/image-length/hybrid-padding', 'image-length',
                                  'hybrid image has %d bytes for %d declared sectors and cylinder size %d' % (len(img), vol, cyl)))
     ivs = intervals(info, uinfo)
+    # a boot file whose names were all unlinked is still referenced by its El Torito entry
+    el = info.get('eltorito') or {}
+    if m.boot is not None and 'initial' in el:
+        got = [el['initial']] + [e for sct in el.get('sections', []) for e in sct['entries']]
+        for g, w in zip(got, m.boot['entries']):
+            b = m.blobs.get(w['blob'])
+            if b is not None and b.length and not any(ns in ('iso', 'jol') for ns, _ in b.names):
+                ivs.append((g['rba'], (b.length + 2047) // 2048, 'udf-data' if b.names else 'boot-image', 'eltorito-entry@%d' % g['offset']))
     for first, n, kind, owner in ivs:
         if vol and first + n > vol and kind != 'system-area':
-            failures.append(('C04/out-of-bounds/%s' % kind, 'out-of-bounds', '%s %r occupies sectors [%d,%d) beyond the declared volume size %d' % (kind, _o(owner), first, first + n, vol)))
+            failures.append(((prefix + '/out-of-bounds/%s') % kind, 'out-of-bounds', '%s %r occupies sectors [%d,%d) beyond the declared volume size %d' % (kind, _o(owner), first, first + n, vol)))
     # ---- (a) overlap
     ivs_s = sorted(ivs, key=lambda t: (t[0], t[1]))
     maxend, maxiv = -1, None
@@ -103,8 +96,9 @@ def oracle(program, track):
             benign = same_range and {kind, k2} <= {'file', 'udf-data'}          # one blob seen through ISO/Joliet and through UDF
             benign = benign or (same_range and kind == k2 == 'udf-data')          # UDF hard links
             benign = benign or (same_range and {kind, k2} == {'boot-catalog', 'udf-data'})
+            benign = benign or (same_range and kind == k2 == 'boot-image')        # two entries booting one unnamed image
             if not benign:
-                failures.append(('C04/overlap/%s+%s' % tuple(sorted((kind, k2))), 'overlap',
+                failures.append(((prefix + '/overlap/%s+%s') % tuple(sorted((kind, k2))), 'overlap',
                                  '%s %r at [%d,%d) overlaps %s %r at [%d,%d)' % (kind, _o(owner), first, first + n, k2, _o(maxiv[3]), maxiv[0], maxiv[0] + maxiv[1])))
         if first + n > maxend:
             maxend, maxiv = first + n, iv
@@ -129,13 +123,37 @@ def oracle(program, track):
             if (ns, p) in loc:
                 exts.add(loc[(ns, p)])
         if len(exts) > 1:
-            failures.append(('C04/linked-names-different-extents', 'shared-iff-linked',
+            failures.append((prefix + '/linked-names-different-extents', 'shared-iff-linked',
                              'names %r are links of one content but point at different sectors %r' % (sorted(b.names)[:4], sorted(exts))))
         for x in exts:
             if x in blob_extent and blob_extent[x] != b.id:
-                failures.append(('C04/distinct-contents-share-extent', 'shared-iff-linked',
+                failures.append((prefix + '/distinct-contents-share-extent', 'shared-iff-linked',
                                  'sector %d holds the data of two different contents (blob %d and blob %d)' % (x, blob_extent[x], b.id)))
             blob_extent[x] = b.id
+    return failures, loc, uinfo, ivs, vol, hybrid
+
+
+def oracle(program, track):
+    shim.install('UTC')
+    failures = []
+    run = Run(program)
+    run.run_all()
+    run.stats = {'c01_domain': 0}
+    if run.dead or run.problems:
+        run.stats['c01_domain'] += 1
+        run.close()
+        return run, failures
+    rec = RecordingFile()
+    img = run.write(rec)
+    if img is None:
+        run.stats['c01_domain'] += 1
+        run.close()
+        return run, failures
+    m = run.model
+    info = iso9660.read_iso(img)
+    run.info = info
+    fs, loc, uinfo, ivs, vol, hybrid = allocation_failures(m, img, info)
+    failures.extend(fs)
     # ---- (d) write log
     seen = {}
     log = sorted(rec.log)
@@ -157,6 +175,9 @@ def oracle(program, track):
         if off < prev_end:
             allowed = (bit_patch_ok.get(off) == ln) or (prev is not None and bit_patch_ok.get(prev[0]) == prev[1]) or (ln == 1 and off + 1 == len(img))
             allowed = allowed or (prev is not None and prev[1] == 1 and prev[0] + 1 == len(img))
+            # Interpretation: the backup GPT of an EFI hybrid is written into the cylinder padding after the
+            # padding zeros (outside the ISO9660 volume; the library's own detector exempts it the same way)
+            allowed = allowed or (hybrid and vol and off >= vol * 2048)
             if not allowed:
                 dbl += 1
                 kind = iso9660.kind_of_sector(img, off // 2048) or 'unknown'
